@@ -132,9 +132,27 @@ func freshBase(v ssa.Value) bool {
 // prePublication: accesses in bttest.NewServerWithOptions that are executed
 // before the first goroutine is started and before the service is registered.
 func prePublication(p *core.Program, in ssa.Instruction) bool {
+	return prePublicationDepth(p, in, 0)
+}
+
+func prePublicationDepth(p *core.Program, in ssa.Instruction, depth int) bool {
 	fn := in.Parent()
 	if !core.FuncIs(fn, core.PkgBttest, "NewServerWithOptions") {
-		return false
+		// a helper of the constructor: every reference to it is itself a pre-publication site
+		root := core.Root(fn)
+		if depth > 3 || (root.Object() != nil && root.Object().Exported()) {
+			return false
+		}
+		refs := p.Refs(root)
+		if len(refs) == 0 {
+			return false
+		}
+		for _, r := range refs {
+			if !prePublicationDepth(p, r.Instr, depth+1) {
+				return false
+			}
+		}
+		return true
 	}
 	n := 0
 	for _, b := range fn.Blocks {
